@@ -380,6 +380,8 @@ def build_air(src, dst, mode):
         L.rx_waiters.append(d)
     if mode.startswith("partial"):
         w.fault = LoseAfter(int(mode[7:]))
+    if mode == "nack":
+        d.ghost = H.mk_ghost_tx(w, "G")  # will answer with the NETWORK_ACK the origin waits for
     w.advance(1 * MS)
     return (w, node, r, L, d), addr
 
@@ -409,6 +411,16 @@ def air_case(pack, addr, case, seed):
     msg = bytearray(raw) if api == "write" else raw
     mark = len(w.airlog)
     exc = None
+    if mode == "nack":
+        # the node delivering to the destination answers with a NETWORK_ACK (from = to = origin)
+        # while the origin waits for it; it arrives on one of the origin's own pipes
+        import struct as _st
+        nack = _st.pack("<HHHBB", src, src, fid0, 193, 0)
+        w.at(w.now + (4 + n // 6) * MS, sim.GhostShot(d.ghost, H.net_pipe_address(src, 1, multicast=False), nack), "fire")
+        mode = "sent"
+        nack_mode = True
+    else:
+        nack_mode = False
     try:
         if api == "write":
             frame = H.RF24NetworkFrame(hdr, msg)
@@ -487,13 +499,15 @@ def air_case(pack, addr, case, seed):
                 v("reassembly:type", "receiver sees type %d, sent type %d" % (ty_, typ))
             elif (f_, t_) != (src, dst):
                 v("reassembly:addresses", "receiver sees from=%o to=%o" % (f_, t_))
+        if nack_mode and result is not True:
+            v("result:network-ack-arrived", "write returned %r although every frame was acknowledged and the NETWORK_ACK arrived" % (result,))
         if result is not True and not (64 < typ < 192 and next_hop_pipe(src, dst)[0] != dst):
             v("result:sent", "write returned %r although every frame was acknowledged" % (result,))
     else:
         if result:
             v("result:%s" % mode, "write returned %r although the next hop did not acknowledge" % (result,))
     if hdr.message_type != typ:
-        v("type-restored:%s" % mode, "caller's header shows type %r after sending type %d" % (hdr.message_type, typ))
+        v("type-restored:%s" % (mode + ("+network-ack" if nack_mode else "")), "caller's header shows type %r after sending type %d" % (hdr.message_type, typ))
     if bytes(after_msg) != raw or bytes(msg) != raw:
         v("message-modified:%s" % mode, "caller's message changed")
     outcome = "air:%s:%s:frames=%d:%s" % (mode, shape, len(seq), "T" if result else "F")
@@ -542,6 +556,13 @@ def air_items(tier, seed):
         cases = [(typ, n, "send" if (typ + n) % 2 else "write") for typ in range(lo, lo + 16) for n in tl]
         for i in range(0, len(cases), 128):
             items.append((0o1, 0, "sent", cases[i:i + 128], seed))
+    # routed ACK-type messages whose NETWORK_ACK arrives while write() waits for it
+    for src, dst in AIR_ROUTES:
+        if next_hop_pipe(src, dst)[0] == dst:
+            continue
+        cases = [(typ, n, api) for typ in ((65, 127, 191) if tier == "quick" else (65, 66, 127, 128, 150, 191))
+                 for n in ((0, 5, 24, 25, 60, 144) if tier == "quick" else (0, 1, 5, 23, 24, 25, 48, 49, 60, 143, 144)) for api in ("send", "write")]
+        items.append((src, dst, "nack", cases, seed))
     # nobody answers / the next hop stops answering after k fragments
     for i in range(0, 145, 8):
         items.append((0o1, 0o11, "failed", [(65 if n % 2 else 1, n, "send" if n % 3 else "write") for n in lens[i:i + 8]], seed))
